@@ -23,3 +23,34 @@ package idxfile
 //gvc:  ensures none: !ok ==> a < 0 || b < 0 || a + b > 0x7fffffffffffffff
 //gvc:  ensures zero: !ok ==> r == 0
 //gvc:end
+
+//gvc:func (*MemoryIndex).idSize
+//gvc:  props C10
+//gvc:  theory int
+//gvc:  ensures val: result == ite(idx.objectIDSize != 0, idx.objectIDSize, 20)
+//gvc:end
+
+// findHashIndex: binary search inside one fanout bucket.
+// View: bucket k = FanoutMapping[first byte]; entry i is Names[k][i*sz:(i+1)*sz];
+// cmp(i) = sign of h.Compare(entry i). Sortedness of the bucket is stated
+// relative to h (cmp non-increasing in i), which is what a strictly sorted
+// name table gives for every h.
+//gvc:func (*MemoryIndex).findHashIndex
+//gvc:  props C10 C53
+//gvc:  theory int
+//gvc:  results pos found
+//gvc:  let k = idx.FanoutMapping[h.hash[0]]
+//gvc:  let sz = ite(idx.objectIDSize != 0, idx.objectIDSize, 20)
+//gvc:  let n = len(idx.Offset32[k]) / 4
+//gvc:  let names = idx.Names[k]
+//gvc:  requires idsize: sz == 20 || sz == 32
+//gvc:  requires mapping: k == -1 || (0 <= k && k < 256)
+//gvc:  requires shape: k >= 0 && k < len(idx.Names) ==> k < len(idx.Offset32) && len(names) == n * sz
+//gvc:  requires sorted: forall(i, 0, n, forall(j, 0, n, i < j && spec_bytes_cmp(arr(h.hash), arr(names), off(names) + j * sz, sz) >= 0 ==> spec_bytes_cmp(arr(h.hash), arr(names), off(names) + i * sz, sz) > 0))
+//gvc:  loop 1 invariant range: low < high && high <= n
+//gvc:  loop 1 invariant below: forall(i, 0, low, spec_bytes_cmp(arr(h.hash), arr(names), off(names) + i * sz, sz) > 0)
+//gvc:  loop 1 invariant above: forall(i, high, n, spec_bytes_cmp(arr(h.hash), arr(names), off(names) + i * sz, sz) < 0)
+//gvc:  loop 1 decreases high - low
+//gvc:  ensures hit: found ==> k >= 0 && 0 <= pos && pos < n && spec_bytes_cmp(arr(h.hash), arr(names), off(names) + pos * sz, sz) == 0
+//gvc:  ensures miss: !found ==> pos == 0 && (k == -1 || k >= len(idx.Names) || forall(i, 0, n, spec_bytes_cmp(arr(h.hash), arr(names), off(names) + i * sz, sz) != 0))
+//gvc:end
